@@ -380,7 +380,7 @@ static int cmdInverse( int argc, char ** argv ) {
             bool f = true;
             for( SDAI_Application_instance::iAMap_t::const_iterator it = m.begin(); it != m.end(); ++it ) {
                 const Inverse_attribute * ia = it->first;
-                bool aggr = ia->inverted_attr_() && ia->inverted_attr_()->IsAggrType();
+                bool aggr = ia->IsAggrType() != 0;
                 o << ( f ? "" : "," ) << "{\"name\":" << jesc( ia->Name() ) << ",\"owner\":" << jesc( ia->Owner().Name() )
                   << ",\"for_entity\":" << jesc( ia->inverted_entity_id_() ? ia->inverted_entity_id_() : "" )
                   << ",\"for_attr\":" << jesc( ia->inverted_attr_id_() ? ia->inverted_attr_id_() : "" )
